@@ -375,3 +375,39 @@ def rule_fifo(ctx, R):
                 R.finding(fn, "waiter-queue:%s" % m.group(1),
                           "%s edits a key's waiter queue with VecDeque::%s (line %d), which does not keep the arrival order: a client that blocked later can be served before one that blocked earlier" % (fn.split("::")[-1], m.group(1), b.bb_line(i)), b.loc(i))
     R.floor("waiter_queue_operations", n)
+
+
+def rule_unreg_all(ctx, R):
+    """`BLPOP k k k 0` registers the client once per key argument, so a key's queue can hold a
+    client several times: every function that takes a client out of a key's queue by connection
+    id removes ALL its entries (retain / drain-filter, or a removal inside a loop that searches
+    again), otherwise a stale entry survives the call it belonged to and swallows a later element
+    or times out a later blocking call"""
+    n = 0
+    for nm in ("unregister_client",):
+        b = ctx.prog.need(BR + nm)
+        lps = cfg.loops(b)
+        rem = []
+        for i, t in b.calls():
+            m = re.match(r"^std::collections::VecDeque::<network::blocking::BlockedClient>::(\w+)", t["f"] or "")
+            if m and m.group(1) in ("remove", "swap_remove_back", "swap_remove_front", "pop_front", "pop_back", "retain", "retain_mut", "drain"):
+                rem.append((i, m.group(1)))
+        for i, op in rem:
+            n += 1
+            ok = op in ("retain", "retain_mut")
+            if not ok:
+                # a single-entry removal is fine only inside a loop that looks for the client again
+                # (the search call -- position / iter().position -- is in the same loop)
+                for h, body in lps.items():
+                    if i in body and any(re.search(r"Iterator>::position(::<.*>)?$|::position$", b.term(x)["f"] or "") for x in body if b.term(x)["k"] == "call"):
+                        # the loop must be per client entry, not the loop over keys: its head is
+                        # reached again after the removal without leaving the key's queue
+                        inner = min((bd for hh, bd in lps.items() if i in bd), key=len)
+                        walks_keys = any(re.search(r"hash_map::(IterMut|Iter|ValuesMut|Values)<.*> as std::iter::Iterator>::next$", b.term(x)["f"] or "") for x in inner if b.term(x)["k"] == "call")
+                        if not walks_keys and any(re.search(r"position", b.term(x)["f"] or "") for x in inner if b.term(x)["k"] == "call"):
+                            ok = True
+            R.inst(b.fn, "queue-removal:" + op, {"function": nm, "op": op, "removes_every_entry_of_the_client": ok})
+            if not ok:
+                R.finding(b.fn, "queue-removal:%s:first-entry-only" % op,
+                          "%s takes the client out of a key's queue with VecDeque::%s (line %d), which removes one entry; a client that named the key several times in one BLPOP keeps a stale registration" % (nm, op, b.bb_line(i)), b.loc(i))
+    R.floor("queue_removals_by_connection_id", n)
